@@ -151,6 +151,11 @@ Terminates == <>Terminal                                      \* never hangs (un
 (* C13: a worker that died before its sentinel reached the pipe can never be counted *)
 Lost(w) == wpc[w] = "dead" /\ ~\E k \in 1..Len(pipe) : FALSE
 NeverSuccessAfterLoss == [][ppc' = "finished" => out' = Ident(R)]_vars
+(* When the parent's main thread ends, multiprocessing's exit handler JOINS every live non-daemonic   *)
+(* child, and nobody reads the pipe any more: a child that still has more to send than the pipe holds *)
+(* never exits and the command hangs at exit.  The design is safe because it only ever ends with no   *)
+(* worker alive (the harness applies the same rule to the implementation: sched.Sched.exit_join).     *)
+NoLiveWorkerAtExit == Terminal => \A w \in Workers : ~AliveIn(St, w)
 TypeOK == /\ grp \in 1..NG /\ nsent \in 0..(C + R + 2) /\ faults \in 0..MaxFaults
           /\ ppc \in {"start", "get", "alive", "exitchk", "join", "drain", "finished", "aborted", "crashed"}
 =============================================================================
